@@ -92,6 +92,10 @@ class Calls:
                     r[p] = "instance"
                 elif p in ("_schema", "schema"):
                     r[p] = "schema"
+        # the document a fragment is followed in is a schema document too (first argument of resolve_fragment)
+        rc = self.prog.classes.get("validators.RefResolver")
+        if rc is not None and "resolve_fragment" in rc.methods and len(rc.methods["resolve_fragment"].params) >= 2:
+            roles[rc.methods["resolve_fragment"]].setdefault(rc.methods["resolve_fragment"].params[1], "schema")
         # propagate through calls by argument position
         changed = True
         n = 0
